@@ -804,9 +804,9 @@ _enum_kernel = fam_enum(False)
 _enum_fine = fam_enum(True)
 
 FAMILIES = [
-    Family("enum-kernel", _enum_kernel, quick=63, thorough=lambda ctx: len(enum_table()) + 160,
+    Family("enum-kernel", _enum_kernel, quick=66, thorough=lambda ctx: len(enum_table()) + 160,
            budget={"quick": 40, "thorough": 500}),
-    Family("enum-fine", _enum_fine, quick=46, thorough=lambda ctx: len(enum_table()) + 100,
+    Family("enum-fine", _enum_fine, quick=47, thorough=lambda ctx: len(enum_table()) + 100,
            budget={"quick": 40, "thorough": 500}),
     Family("sampled-large", fam_sampled, quick=24, thorough=660, budget={"quick": 30, "thorough": 420}),
     Family("sweep-threadcounts", fam_sweep, quick=36, thorough=680, budget={"quick": 30, "thorough": 420}),
